@@ -201,6 +201,20 @@ def _global_state():
             out[name + '.mc.globals'] = tuple(sorted((k, id(v), repr(v) if isinstance(v, (dict, list, set)) else '')
                                                      for k, v in vars(m).items() if not k.startswith('__')))
     out['Bool.symbols'] = tuple(sorted(BL.Bool.symbols.items()))
+    # every mutable module-level / class-level container of the package outside BDD (a cache
+    # added anywhere shows up as a changed snapshot)
+    import sys as _sys
+    import inspect as _inspect
+    for mname, m in sorted(_sys.modules.items()):
+        if not mname.startswith('pyModelChecking') or '.BDD' in mname or '.tests' in mname or m is None:
+            continue
+        for k, v in sorted(vars(m).items()):
+            if isinstance(v, (dict, list, set)) and not k.startswith('__'):
+                out['%s.%s' % (mname, k)] = (len(v), repr(sorted(map(repr, v)))[:400])
+            elif _inspect.isclass(v) and getattr(v, '__module__', '') == mname:
+                for ck, cv in sorted(vars(v).items()):
+                    if isinstance(cv, (dict, list, set)) and not ck.startswith('__'):
+                        out['%s.%s.%s' % (mname, k, ck)] = (len(cv), repr(sorted(map(repr, cv)))[:400])
     return out
 
 
@@ -264,6 +278,18 @@ def check_purity_case(case):
     order = list(range(len(queries)))
     for i in order:
         queries[i]['first'], _ = run(queries[i])
+    # the result depends only on the arguments: a text query must agree with the same formula
+    # given as an object, whatever was parsed before it (by this or by another logic)
+    for q in queries:
+        if isinstance(q['arg'], str):
+            Lq = lang(q['logic'])
+            K = Ks[q['ki']][1]
+            obj = trees.build(Lq, q['t'])
+            r_obj = call(Lq.modelcheck, K, obj, F=q['F']) if q['F'] is not None else call(Lq.modelcheck, K, obj)
+            a = q['first']
+            if a[0] != r_obj[0] or (a[0] == 'ok' and a[1] != r_obj[1]) or (a[0] != 'ok' and a[1] != r_obj[1]):
+                fails.append(('purity:text_vs_object', '%s gives %r as text but %r as an object (after other calls in this process)'
+                              % (describe(q), a[:2], r_obj[:2]), {'logic': q['logic'], 'fair': q['F'] is not None}))
     for _ in range(n_calls):
         q = rng.choice(queries)
         r, attrs = run(q)
